@@ -209,6 +209,20 @@ def f_front_file(s):
                           for b in 'csd'])
 
 
+def f_front_all(s):
+    '''front, blocks and the raw cards of the c, s, d blocks of one text.'''
+    out = f_front(s) + SEP2 + f_blocks(s) + SEP2
+    from MIP.mip.blocks import get_block_positions
+    try:
+        dres = get_block_positions(s)
+    except (ValueError, IndexError):
+        return out
+    for key in 'csd':
+        if key in dres:
+            out += f_get_cards(s[slice(*dres[key][0])]) + SEP4
+    return out
+
+
 FUNS = {
     0: ('is_comment', f_is_comment), 1: ('has5', f_has5),
     2: ('amp_cont', f_amp_cont), 3: ('expand_tabs', f_expand_tabs),
@@ -220,7 +234,7 @@ FUNS = {
     14: ('split_options', f_split_options), 15: ('void_split', f_void),
     16: ('nonvoid_split', f_nonvoid), 17: ('likebut_split', f_likebut),
     18: ('opt_tokens', f_opt_tokens), 19: ('lower', f_lower),
-    20: ('front', f_front),
+    20: ('front', f_front), 21: ('front_all', f_front_all),
 }
 FID = {name: fid for fid, (name, _) in FUNS.items()}
 
